@@ -69,6 +69,24 @@ impl Scripted {
         let floor = cx.floor;
         cx.floor = cx.guards.len();
         let mut scope = None;
+        let mut outer_scope = None;
+        if self.in_span {
+            let outer = {
+                let w = cx.case.w();
+                let ad = &w.h.adapters[a];
+                match ad.outer {
+                    Some(o) if ad.done_t.is_none() && !w.h.spans[o].noop && w.h.vts[cx.id].stack.len() < 4096 && !cx.case.opts.disabled => Some(o),
+                    _ => None,
+                }
+            };
+            if let Some(o) = outer {
+                let items = {
+                    let w = cx.case.w();
+                    w.h.spans[o].items.iter().map(|i| MItem { trace: i.trace, parent: PRef::Span(o), unit: i.unit, sampled: i.sampled }).collect()
+                };
+                outer_scope = Some(cx.model_open_scope(ScopeKind::Parent { span: o, items }, Some(a)));
+            }
+        }
         if self.in_span {
             let (span, present, noop, depth) = {
                 let w = cx.case.w();
@@ -104,6 +122,7 @@ impl Scripted {
         {
             let mut w = cx.case.w();
             w.h.adapters[a].polls[pi].scope = scope;
+            w.h.adapters[a].polls[pi].outer_scope = outer_scope;
             w.h.adapters[a].polls[pi].eop_local = eop_local;
         }
         // first observation inside the call
@@ -253,6 +272,10 @@ pub enum AdapterObj {
     Stream(Pin<Box<fastrace_futures::InSpan<ScriptedStream>>>),
     Sink(Pin<Box<fastrace_futures::InSpan<ScriptedSink>>>),
     Duplex(Pin<Box<fastrace_futures::InSpan<ScriptedDuplex>>>),
+    /// chained adapters: whatever type `.in_span(a).in_span(b)` yields (type-erased, so that the
+    /// harness compiles whichever method the second call resolves to)
+    Stream2(Pin<Box<dyn Stream<Item = u32> + Send>>),
+    Sink2(Pin<Box<dyn Sink<u32, Error = u8> + Send>>),
 }
 
 impl VtCtx {
@@ -392,6 +415,25 @@ pub fn wrap(cx: &mut VtCtx, kind: AdapterKind, span_sel: u16, s: StrSeed, script
         span_idx = Some(idx);
         span = Some(sp);
     }
+    // chained adapters need a second live span; without one they are plain adapters
+    let mut outer_idx = None;
+    let mut outer_span = None;
+    let kind = if matches!(kind, AdapterKind::StreamTwice | AdapterKind::SinkTwice) {
+        let mut w = cx.case.w();
+        let live: Vec<usize> = (0..w.spans.len()).filter(|i| matches!(w.spans[*i], Slot::Live(_))).collect();
+        if live.is_empty() {
+            if kind == AdapterKind::StreamTwice { AdapterKind::Stream } else { AdapterKind::Sink }
+        } else {
+            let idx = live[sel(span_sel.rotate_left(7), live.len())];
+            if let Slot::Live(sp) = std::mem::replace(&mut w.spans[idx], Slot::Gone) {
+                outer_idx = Some(idx);
+                outer_span = Some(sp);
+            }
+            kind
+        }
+    } else {
+        kind
+    };
     let mk = |in_span: bool, eop: Option<String>| Scripted {
         adapter: a,
         script: script.to_vec(),
@@ -426,6 +468,14 @@ pub fn wrap(cx: &mut VtCtx, kind: AdapterKind, span_sel: u16, s: StrSeed, script
             ScriptedDuplex(mk(true, None)),
             span.take().unwrap(),
         ))),
+        AdapterKind::StreamTwice => {
+            use fastrace_futures::StreamExt as _;
+            AdapterObj::Stream2(Box::pin(ScriptedStream(mk(true, None)).in_span(span.take().unwrap()).in_span(outer_span.take().unwrap())))
+        }
+        AdapterKind::SinkTwice => {
+            use fastrace_futures::SinkExt as _;
+            AdapterObj::Sink2(Box::pin(ScriptedSink(mk(true, None)).in_span(span.take().unwrap()).in_span(outer_span.take().unwrap())))
+        }
         AdapterKind::TracedBoxed => unreachable!(),
     };
     let mut w = cx.case.w();
@@ -440,9 +490,15 @@ pub fn wrap(cx: &mut VtCtx, kind: AdapterKind, span_sel: u16, s: StrSeed, script
         dropped_t: None,
         create_vt: vt,
         held_finished: vec![],
+        outer: None,
     });
     if let Some(i) = span_idx {
         w.h.spans[i].in_adapter = Some(a);
+    }
+    if let Some(o) = outer_idx {
+        w.h.adapters[a].outer = Some(o);
+        w.h.spans[o].in_adapter = Some(a);
+        w.h.label("chained_adapters");
     }
     w.h.label("wrap");
 }
@@ -485,6 +541,7 @@ fn wrap_traced_boxed(cx: &mut VtCtx, script: &[PollScript]) {
         dropped_t: None,
         create_vt: vt,
         held_finished: vec![],
+        outer: None,
     });
     w.h.label("wrap");
     w.h.label("traced_fn_returning_boxed_future");
@@ -513,8 +570,8 @@ pub fn drive(cx: &mut VtCtx, a_sel: u16, entry: Entry, nested: bool) {
         return;
     }
     let entry = match kind {
-        AdapterKind::Stream => Entry::PollNext,
-        AdapterKind::Sink => match entry {
+        AdapterKind::Stream | AdapterKind::StreamTwice => Entry::PollNext,
+        AdapterKind::Sink | AdapterKind::SinkTwice => match entry {
             Entry::Poll | Entry::PollNext => Entry::PollReady,
             e => e,
         },
@@ -554,6 +611,7 @@ pub fn drive(cx: &mut VtCtx, a_sel: u16, entry: Entry, nested: bool) {
             inside_clp: vec![],
             inside_panicked: false,
             scope: None,
+            outer_scope: None,
             eop_local: None,
             past_end: false,
             i0: 0,
@@ -587,6 +645,20 @@ pub fn drive(cx: &mut VtCtx, a_sel: u16, entry: Entry, nested: bool) {
                 false
             }
             (AdapterObj::Sink(s), _) => s.as_mut().poll_close(&mut c).is_ready(),
+            (AdapterObj::Stream2(s), _) => matches!(s.as_mut().poll_next(&mut c), Poll::Ready(None)),
+            (AdapterObj::Sink2(s), Entry::PollReady) => {
+                let _ = s.as_mut().poll_ready(&mut c);
+                false
+            }
+            (AdapterObj::Sink2(s), Entry::StartSend) => {
+                let _ = s.as_mut().start_send(3);
+                false
+            }
+            (AdapterObj::Sink2(s), Entry::PollFlush) => {
+                let _ = s.as_mut().poll_flush(&mut c);
+                false
+            }
+            (AdapterObj::Sink2(s), _) => s.as_mut().poll_close(&mut c).is_ready(),
             (AdapterObj::Duplex(s), Entry::PollNext) => matches!(s.as_mut().poll_next(&mut c), Poll::Ready(None)),
             (AdapterObj::Duplex(s), Entry::PollReady) => {
                 let _ = s.as_mut().poll_ready(&mut c);
@@ -628,12 +700,12 @@ pub fn drive(cx: &mut VtCtx, a_sel: u16, entry: Entry, nested: bool) {
             false
         }
     };
-    let (scope, eop_local) = {
+    let (scope, eop_local, outer_scope) = {
         let p = &mut w.h.adapters[a].polls[pi];
         p.t = (t0, t1);
         p.b0 = b0;
         p.b1 = b1;
-        (p.scope, p.eop_local)
+        (p.scope, p.eop_local, p.outer_scope)
     };
     drop(w);
     // model: guards of the adapter are released when the call returns
@@ -643,11 +715,14 @@ pub fn drive(cx: &mut VtCtx, a_sel: u16, entry: Entry, nested: bool) {
     if let Some(sc) = scope {
         cx.model_close_scope(sc, t0);
     }
+    if let Some(sc) = outer_scope {
+        cx.model_close_scope(sc, t0);
+    }
     let mut w = cx.case.w();
     if finished_now && w.h.adapters[a].done_t.is_none() {
         w.h.adapters[a].done_t = Some(t1);
         w.h.adapters[a].polls[pi].finishing = true;
-        if let Some(si) = w.h.adapters[a].span {
+        for si in [w.h.adapters[a].span, w.h.adapters[a].outer].into_iter().flatten() {
             if w.h.spans[si].finish_t.is_none() {
                 w.h.spans[si].finish_t = Some((t0, t1));
                 w.h.spans[si].finish_vt = Some(vt);
@@ -723,7 +798,7 @@ pub fn drop_adapter_idx(cx: &mut VtCtx, a: usize) {
     }
     w.h.adapters[a].dropped_t = Some((t0, t1));
     if w.h.adapters[a].done_t.is_none() {
-        if let Some(si) = w.h.adapters[a].span {
+        for si in [w.h.adapters[a].span, w.h.adapters[a].outer].into_iter().flatten() {
             if w.h.spans[si].finish_t.is_none() {
                 w.h.spans[si].finish_t = Some((t0, t1));
                 w.h.spans[si].finish_vt = Some(vt);
